@@ -320,7 +320,7 @@ pub fn run_ring(which: Which, tier: Tier) -> ! {
     let scenarios = scenario_set(tier, which == Which::C01);
     let tally = Tally::new();
     let t0 = std::time::Instant::now();
-    let budget_s = tier.pick(45.0, 2400.0);
+    let budget_s = tier.pick(600.0, 14400.0);
     let skipped = AtomicU64::new(0);
     // k = 0 everywhere (quick) / k = 1 everywhere (thorough: on the critical ones k = 2 is too costly, k = 1 on all)
     scenarios.par_iter().for_each(|sc| {
